@@ -439,7 +439,46 @@ def case_simulated_weights(col, p):
     col.distinct('nontrivial', ('simulated_weights', nseq, nsub, F))
 
 
-CASES = {'simulated_weights': case_simulated_weights, 'subsample_env': case_subsample_env, 'partitions': case_partitions, 'matrices': case_matrices, 'correction': case_correction}
+def case_simulated_threshold(col, p):
+    """the calling threshold of the simulated regime (a variant is called from two reads of the alternative allele on, like the analytic no-call
+    probability assumes): with exactly two reads per individual, a locus whose carriers are all homozygous has a deterministic outcome - it is
+    called, at its true count, as soon as one individual carries the variant.  So the simulated outcome puts at least the (exact) probability of
+    the all-homozygous partition on the true count, whatever the random reads of heterozygotes do."""
+    from dadi.LowPass import LowPass as LP
+    nseq, F = p['nseq'], p['F']
+    nind = nseq // 2
+    cov = {'pop0': coverage_alphabet()['point2']}
+    nsim = 100003
+    cnt = 0
+    for a in range(2, nseq + 1, 2):
+        parts = sorted(set(tuple(sorted(v)) for v in itertools.product((0, 1, 2), repeat=nind) if sum(v) == a))
+        ex_w = {}
+        for part in parts:
+            n0, n1, n2 = part.count(0), part.count(1), part.count(2)
+            ways = Fraction(factorial(nind), factorial(n0) * factorial(n1) * factorial(n2))
+            if a == nseq:
+                ex_w[part] = Fraction(1)
+            else:
+                Ff = Fraction(float(F))
+                pp = Fraction(a, nseq)
+                al, be = pp * (1 - Ff) / Ff, (1 - pp) * (1 - Ff) / Ff
+                ex_w[part] = ways * bb2(0, al, be) ** n0 * bb2(1, al, be) ** n1 * bb2(2, al, be) ** n2
+        tot = sum(ex_w.values())
+        hom = tuple(sorted([2] * (a // 2) + [0] * (nind - a // 2)))
+        w_hom = float(ex_w[hom] / tot)
+        np.random.seed(5)
+        got = np.asarray(LP.simulate_GATK_multisample_calling(cov, [a], [nseq], [nseq], nsim, [F]), dtype=float)
+        col.tick(transitions=1)
+        cnt += 1
+        slack = 2.0 * (len(parts) + 1) / nsim
+        if not got[a] >= w_hom - slack:
+            col.violation('C18:simulated_regime:two_alternative_reads_not_called', dict(p, allele_count=a),
+                          {'mass_at_true_count': float(got[a]), 'all_homozygous_partition': w_hom})
+    col.tick(states=cnt, traces=cnt)
+    col.distinct('nontrivial', ('simulated_threshold', nseq, F))
+
+
+CASES = {'simulated_threshold': case_simulated_threshold, 'simulated_weights': case_simulated_weights, 'subsample_env': case_subsample_env, 'partitions': case_partitions, 'matrices': case_matrices, 'correction': case_correction}
 
 
 def _dispatch(col, case):
@@ -484,6 +523,9 @@ def run(ctx):
     for nseq_, nsub_ in ((4, 2), (6, 2), (6, 4), (6, 6), (8, 4)):
         for F in (0, 0.3, 0.9):
             cases.append({'kind': 'simulated_weights', 'nseq': nseq_, 'nsub': nsub_, 'F': F})
+    for nseq_ in (4, 6):
+        for F in (0.5, 0.9):
+            cases.append({'kind': 'simulated_threshold', 'nseq': nseq_, 'F': F})
     # the simulated regime after another coverage distribution was simulated for the same population names in this process
     for nseq, nsub in (((4,), (2,)), ((6,), (4,)), ((4, 2), (2, 2))):
         for pre in ('point1', 'uniform0_3', 'mix0_4'):
